@@ -51,6 +51,15 @@
 //   ones), partition-family members with k <= 3 polygons in all 2^k assignments (thorough) — under the
 //   unchanged distance oracle, use_union false and true, all relations, both signs, all joins.  Tags
 //   winding ("+-" = first counter-clockwise, second clockwise) and mixed_winding identify the assignment.
+// Scaling is an explicit input dimension beyond {1000, 2^20}: sub-check offset.scaling_large runs a reduced
+//   alphabet with exactly mirrored slopes at corners (diamonds, isosceles triangles, chevrons, zigzag, octagon,
+//   hexagon) next to rectangles, L shapes and a ring, singles and 16 pairs, in both/all windings, at scalings
+//   {2^31, 1e9, 1e12} (Clipper's full-range 128-bit mode: scaling*coordinate > 2^30; everything stays below
+//   3e13 << 2^62); offset.scaling_small runs the same alphabet at scalings {1, 8}.  The oracle is the same: exact
+//   arithmetic on the unscaled lattice, guard 3/scaling.  For d<0 with Round joins Clipper's default arc
+//   tolerance of 0.25 grid units yields (pi/2)/sqrt(0.5/(|d|*scaling)) vertices per quarter arc; cases above
+//   5e4 (quick) / 3e5 (thorough) vertices on groups that can have a reflex corner are not executed (counter
+//   skipped_arc_vertex_budget; all of them at 1e12).
 // Union option: members of one partition family (same region, different polygons) are offset with
 //   use_union=true and must agree at every sample farther than g from both results' boundaries, and in
 //   area within (perimeter * 2g).
